@@ -147,7 +147,9 @@ UnknownVals ==
     [b |-> <<87, 145, 146, 90>>, refs |-> 1, defs |-> 0],                   \* variable-length list
     [b |-> <<72, 1, 107, 145, 90>>, refs |-> 1, defs |-> 0],                \* map {"k": 1}
     [b |-> <<74, 0, 0, 1, 93, 0, 0, 0, 0>>, refs |-> 0, defs |-> 0],        \* a date
-    [b |-> <<34, 1, 2>>, refs |-> 0, defs |-> 0] }                          \* a binary
+    [b |-> <<34, 1, 2>>, refs |-> 0, defs |-> 0],                           \* a binary
+    [b |-> <<3, 97, 226, 130, 172, 98>>, refs |-> 0, defs |-> 0],           \* "a€b": three characters, five octets
+    [b |-> <<121, 1, 195, 169>>, refs |-> 1, defs |-> 0] }                  \* list holding "é"
 (* ... and values whose types the receiver does not know either (a newer peer added a field of a type *)
 (* the older one never heard of): they depend on the state (the instance tag is the definition's index) *)
 UnkName == <<85, 110, 107>>                                  \* "Unk"
